@@ -88,6 +88,44 @@ async fn run_storm(a: &Args, m: &mut mon::Mon) {
                     }
                 }
             }
+            if a.prop == "C16" && k % 500 == 200 {
+                // a liquidation by a fresh account of the liquidator's wallet: it takes positions on in
+                // banks it did not hold (two look-ups on one account inside one instruction)
+                w.refresh_oracles();
+                let g = s.g;
+                let nb = w.banks.len();
+                let cands: Vec<usize> = (0..nb).filter(|b| scen::usable_collateral(&w, *b)).collect();
+                let dbs: Vec<usize> = (0..nb).filter(|b| w.bank(*b).config.operational_state == marginfi_type_crate::types::BankOperationalState::Operational && w.bank(*b).config.asset_tag <= 1).collect();
+                if !cands.is_empty() && dbs.len() > 1 {
+                    let ca = storm::pick(&mut r, &cands);
+                    let db = storm::pick(&mut r, &dbs);
+                    if ca != db {
+                        if let Some(lev) = scen::setup_leveraged(&mut w, m, &mut r, g, s.liquidator, ca, db, 0.9).await {
+                            let saved = scen::save_price(&w, ca);
+                            let lu = w.accts[s.liquidator].user;
+                            let lq = w.add_account(g, lu).await;
+                            // a second one that holds the collateral bank only
+                            let lq2 = w.add_account(g, lu).await;
+                            let lk = w.auth_of(lq2);
+                            use solana_sdk::signer::Signer as _;
+                            let i = w.ix_deposit_any(lq2, ca, lk.pubkey(), w.ta_of(lq2, ca), storm::pick(&mut r, &[1u64 << 30, 1 << 34]));
+                            let only_ca = w.exec(m, &[i], &[&lk]).await.ok();
+                            scen::liquidation(&mut w, m, &mut r, &lev, lq).await;
+                            if only_ca {
+                                for d in [None, Some(ca), Some(db)] {
+                                    let i = w.ix_liquidate_x(lq2, lev.acct, ca, db, lk.pubkey(), storm::pick(&mut r, &[1u64, 1000]), d);
+                                    let o = w.exec(m, &[i], &[&lk]).await;
+                                    if o.ok() {
+                                        m.r.count("C16.liquidations_by_holder_of_collateral_bank_only");
+                                    }
+                                }
+                            }
+                            scen::restore_price(&mut w, ca, saved);
+                            m.r.count("C16.fresh_liquidator_scenarios");
+                        }
+                    }
+                }
+            }
             if k == 300 && matches!(a.prop.as_str(), "C02" | "C01" | "C06") && world_no % 2 == 0 {
                 // a bank is wiped out by bad debt half-way through (ledger / solvency exception / accrual on a dead bank)
                 w.refresh_oracles();
